@@ -400,5 +400,6 @@ def check(ctx):
         T_choice(ctx, lib)
         F_branch(ctx, lib)
         deps.cubes(ctx, lib)
+        deps.stability_check(ctx, lib)   # the final filter of both entry points
         deps.semantics_base(ctx, lib)
     deps.cli_plumbing(ctx)
